@@ -117,6 +117,10 @@ Definition run_C01 (cmd : Z) (ints : list Z) (arrs : list (list Q)) : option (li
       Some (qtab n (weights_residual sqf n (arrf arrs 0) (arrf arrs 1) n w) ++ qtab n (weights_normalise n w))
   | 34%Z => (* the radicand of y = np.sqrt(1 - x*x) *)
       Some (map (fun t => leg_y2 t) (arr arrs 0))
+  | 35%Z => (* coefficient list q_{m,l} (lowest degree first): ints m l; arrs radicands, their np.sqrt *)
+      Some (leg_q (sq_table (arr arrs 0) (arr arrs 1)) (intn ints 0) (intn ints 1))
+  | 36%Z => (* Gram polynomial (1 - x^2)^m q_{m,l} q_{m,l'}: ints m l l' *)
+      Some (leg_gram_poly (sq_table (arr arrs 0) (arr arrs 1)) (intn ints 0) (intn ints 1) (intn ints 2))
   | _ => None
   end.
 
